@@ -265,6 +265,26 @@ def oracle(ctx):
         base_ops.append(f'convert\t0\t0\t{hx("/q/" + stem + "." + ty)}\t{hx(base_text)}')
         new_ops.append(f'convert\t0\t0\t{hx("/q/" + stem + "." + ty)}\t{hx(new_text)}')
         metas.append((ty, key, kind, spec, exp_v, new_text))
+    # Mount=: the source of the mount types that name something on the host or another unit (bind, glob, volume, image) is resolved like a
+    # Volume= source — a relative path against the unit's directory, spelled `source=` afterwards — every other type is passed on as written;
+    # both spellings of the key (`source`, `src`), the fields in any order
+    m_ops, m_meta = [], []
+    for mt in ('bind', 'glob', 'volume', 'image', 'tmpfs', 'devpts', 'ramfs'):
+        for sk in ('source', 'src'):
+            for srcv, res_ in (('./conf/app', '/q/conf/app'), ('../up/x', '/up/x'), ('/abs/p', '/abs/p'), ('./conf/*.cfg', '/q/conf/*.cfg')):
+                for order in (0, 1):
+                    fields = [f'type={mt}', f'{sk}={srcv}', 'dst=/m'] if order == 0 else [f'{sk}={srcv}', 'dst=/m', f'type={mt}']
+                    if mt in ('bind', 'glob', 'volume', 'image'):
+                        want = ','.join([f'type={mt}'] + [f'source={res_}' if f.startswith(sk + '=') else f for f in fields if not f.startswith('type=')])
+                    else:
+                        want = ','.join(fields)
+                    m_ops.append(f'convert\t0\t0\t{hx("/q/m.container")}\t{hx("[Container]" + chr(10) + "Image=localhost/i" + chr(10) + "Mount=" + ",".join(fields) + chr(10))}')
+                    m_meta.append((','.join(fields), want))
+    for (val, want), op, av in zip(m_meta, m_ops, argv(ctx, ctx.impl(m_ops))):
+        res.oracle_evals += 1
+        got = [av[i + 1] for i in range(len(av) - 1) if av[i] == '--mount'] if av else None
+        if got != [want]:
+            res.oracle_failures.append(dict(op=op, input=f'Mount={val}', impl_output=str(got), oracle_expectation=f'--mount {want}'))
     bo = ctx.impl(base_ops)
     no = ctx.impl(new_ops)
     bargs, nargs = argv(ctx, bo), argv(ctx, no)
